@@ -422,16 +422,31 @@ def gen_mn(rng, kind=None):
 NEAR_IDENTITY = [(200, 1, 0, 0), (100, 1, 2, -1), (1000, 0, 1, 0), (300, -2, 1, 1)]
 
 
-def gen_spec(rng, cls=None, route=None, mn=None, aniso=1.0, near_identity=False, four_index=False):
+LEN_EXPS = [-100, -60, -40, -34, -30, -27, -20, -10, -3, 3, 10, 20, 27, 30, 34, 40, 60, 100]
+STIFF_EXPS = [-200, -100, -60, -40, -30, -27, -24, -20, -10, 10, 20, 24, 27, 30, 37, 40, 60, 100, 200]
+
+
+def gen_scales(rng):
+    """(stiffness scale, length scale): mostly 1 and the two historical factors, otherwise exact powers of two over the
+    range in which the fourth powers the isotropic closed form takes of the coordinates (times mu b) stay doubles:
+    the physics is homogeneous (u ~ length, strain ~ 1, stress and K ~ stiffness), every tolerance in the code that is
+    absolute shows only away from 1."""
+    cs = rng.choice([1.0, 1.0, 160.25, 0.0078125, 2.0 ** rng.choice(STIFF_EXPS), 2.0 ** rng.choice(STIFF_EXPS)])
+    ls = rng.choice([1.0, 1.0, 1.0, 2.0 ** rng.choice(LEN_EXPS), 2.0 ** rng.choice(LEN_EXPS)])
+    return cs, ls
+
+
+def gen_spec(rng, cls=None, route=None, mn=None, aniso=1.0, near_identity=False, four_index=False, scales=None):
     cls = cls or rng.choice(CLASSES)
     route = route or rng.choice(['default', 'transform', 'transform', 'axes', 'miller', 'miller'])
     if near_identity:
         route = rng.choice(['transform', 'axes'])
     if four_index:
         route = 'miller'
-    scale = rng.choice([1.0, 1.0, 160.25, 0.0078125])
+    scale, ls = scales if scales is not None else gen_scales(rng)
     spec = {'cls': cls, 'cij': gen_cij(rng, cls, aniso=aniso, scale=scale), 'route': route, 'tol': rng.choice(TOLS),
-            'cart_axes': False, 'box': None, 'transform': None, 'xi_uvw': None, 'slip_hkl': None}
+            'cart_axes': False, 'box': None, 'transform': None, 'xi_uvw': None, 'slip_hkl': None,
+            'cscale': scale, 'lscale': 1.0}
     m, n = gen_mn(rng, mn)
     spec['m'], spec['n'] = m, n
     if route in ('transform', 'axes'):
@@ -477,6 +492,37 @@ def gen_spec(rng, cls=None, route=None, mn=None, aniso=1.0, near_identity=False,
     else:
         spec['burgers'] = kind      # resolved in the solver frame after m, n are known (see resolve_burgers)
         spec['bsize'] = bs
+    return apply_length_scale(spec, ls, rng.random() < 0.5)
+
+
+def apply_length_scale(spec, ls, via_box=False):
+    """the same problem in another length unit (ls an exact power of two, or any factor): either the cell is scaled
+    (the Burgers vector stays the same crystal vector) or, without a cell / by choice, the Burgers vector itself."""
+    spec = dict(spec)
+    spec['lscale'] = spec.get('lscale', 1.0) * ls
+    if ls == 1.0:
+        return spec
+    named = isinstance(spec['burgers'], str)
+    if spec['box'] is not None and (via_box or named):
+        # named Burgers vectors are pulled back through the (scaled) cell by resolve_burgers: scale their size too
+        spec['box'] = [[v * ls for v in r] for r in spec['box']]
+        if named:
+            if 'bframe' in spec:
+                spec['bframe'] = [v * ls for v in spec['bframe']]
+            spec['bsize'] = spec.get('bsize', 1.0) * ls
+    elif named:
+        if 'bframe' in spec:
+            spec['bframe'] = [v * ls for v in spec['bframe']]
+        spec['bsize'] = spec.get('bsize', 1.0) * ls
+    else:
+        spec['burgers'] = [v * ls for v in spec['burgers']]
+    return spec
+
+
+def apply_stiffness_scale(spec, cs):
+    spec = dict(spec)
+    spec['cij'] = [[v * cs for v in r] for r in spec['cij']]
+    spec['cscale'] = spec.get('cscale', 1.0) * cs
     return spec
 
 
@@ -541,10 +587,11 @@ def gen_sweep(rng, cls=None, bkind=None):
     """one isotropic base medium, one anisotropy direction, one orientation and one Burgers vector given by its
     components along m, n, ξ (general: all three non-zero); the dispatcher is run at every eps of EPS_SWEEP."""
     np = _np()
-    sw = gen_spec(rng, cls='isotropic')
+    cs, ls = gen_scales(rng)
+    sw = gen_spec(rng, cls='isotropic', scales=(1.0, 1.0))
     sw['dcls'] = cls or rng.choice(CLASSES)
     sw['lam'], sw['mu'] = rng.uniform(0.3, 1.6), rng.uniform(0.4, 1.2)
-    sw['scale'] = rng.choice([1.0, 1.0, 160.25, 0.0078125])
+    sw['scale'] = sw['cscale'] = cs
     sw['dir'] = gen_aniso_dir(rng, sw['dcls'])
     sw['cij'] = None
     bkind = bkind or rng.choice(SWEEP_BKINDS)
@@ -569,7 +616,7 @@ def gen_sweep(rng, cls=None, bkind=None):
     sw['bkind'] = 'frame:' + bkind
     sw['burgers'] = 'frame'
     sw['bframe'] = [float(be), float(bn_), float(bs)]
-    return sw
+    return apply_length_scale(sw, ls, rng.random() < 0.5)
 
 
 def sweep_spec(sw, eps):
@@ -671,20 +718,21 @@ def build(spec, which='stroh'):
     return cls(C, b, **solver_kwargs(spec))
 
 
-def gen_points(rng, s, k, special=True):
-    """field points: generic, on the m / n axes, close to the cut, far and near, with arbitrary offset along ξ."""
+def gen_points(rng, s, k, special=True, ls=1.0):
+    """field points: generic, on the m / n axes, close to the cut, far and near, with arbitrary offset along ξ; `ls` is
+    the length unit of the problem (all distances are multiples of it)."""
     np = _np()
     m, n, xi = s.m, s.n, s.ξ
     pts = []
     for i in range(k):
-        r = rng.choice([1.0, 1.0, 0.125, 8.0, 100.0, 0.01])
+        r = rng.choice([1.0, 1.0, 0.125, 8.0, 100.0, 0.01]) * ls
         kind = rng.choice(['gen', 'gen', 'gen', 'dy', 'xpos', 'yax', 'nearcut', 'nearcut2', 'oncut']) if special else 'gen'
         if kind == 'gen':
             x, y = rng.uniform(-1, 1) * r, rng.uniform(-1, 1) * r
         elif kind == 'dy':
-            x, y = cm.dyadic(rng, -4, 4, 3), cm.dyadic(rng, -4, 4, 3)
+            x, y = cm.dyadic(rng, -4, 4, 3) * ls, cm.dyadic(rng, -4, 4, 3) * ls
             if y == 0:
-                y = 0.5
+                y = 0.5 * ls
         elif kind == 'xpos':
             x, y = abs(rng.uniform(0.1, 1)) * r, 0.0
         elif kind == 'yax':
@@ -694,10 +742,10 @@ def gen_points(rng, s, k, special=True):
         elif kind == 'oncut':
             # exactly on the cut half-plane in an axis-aligned frame (value there: as coded, theta = -pi; the Stroh
             # displacement is complex there); in a rotated frame this is a point within round-off of the cut
-            x, y = -abs(cm.dyadic(rng, 0.125, 4, 3)), rng.choice([0.0, -0.0])
+            x, y = -abs(cm.dyadic(rng, 0.125, 4, 3)) * ls, rng.choice([0.0, -0.0])
         else:
             x, y = -rng.uniform(0.1, 1) * r, rng.choice([-1, 1]) * r * rng.uniform(1e-4, 1e-2)
-        z = rng.choice([0.0, rng.uniform(-5, 5)])
+        z = rng.choice([0.0, rng.uniform(-5, 5)]) * ls
         pts.append([float(v) for v in (x * m + y * n + z * xi)])
     return pts
 
@@ -852,7 +900,7 @@ def _stroh_case(ctx, spec, s):
     nm = np.einsum('i,ijkl,l', s.n, C4, s.m); nn = np.einsum('i,ijkl,l', s.n, C4, s.n)
     NB = -np.linalg.inv(nn); NA = NB.dot(nm); NC = mn.dot(NA) + mm; ND = mn.dot(NB)
     aA, aL, ap = np.abs(s.A), np.abs(s.L), np.abs(s.p)[:, None]
-    cond = float(np.linalg.cond(np.hstack([s.A, s.L]).T))
+    cond = float(np.linalg.cond(np.hstack([s.A, s.L / float(np.abs(C4).max())]).T))     # (A is unitless, L carries the unit of C)
     eps = 1e-13 * max(cond, 1.0)
     sc_top = (aA.dot(np.abs(NA).T) + aL.dot(np.abs(NB).T) + ap * aA).max(axis=1, keepdims=True)
     sc_bot = (aA.dot(np.abs(NC).T) + aL.dot(np.abs(ND).T) + ap * aL).max(axis=1, keepdims=True)
@@ -869,7 +917,9 @@ def _stroh_case(ctx, spec, s):
             ctx.disagree('stroh:' + name, f'residual of `{name}` recomputed by the model from the solver\'s p, A, L, k is '
                          f'{float(np.abs(res).max()):.3e}, {ratio:.2e} x the round-off bound', rep)
     # the four self-checks: the code itself demands |.| <= tol (+1e-5 on the diagonal); the model recomputes them
-    for name, res in (('sum k A L = 1', cAL), ('sum k A A = 0', cAA), ('sum k L L = 0', cLL), ('6x6 orthogonality', cST)):
+    # (sum k A A has the unit of 1/C, sum k L L that of C: the code compares them scaled by max|C_ijkl|)
+    cmx = float(np.abs(s.C.Cijkl).max())
+    for name, res in (('sum k A L = 1', cAL), ('sum k A A = 0', cAA * cmx), ('sum k L L = 0', cLL / cmx), ('6x6 orthogonality', cST)):
         r = float(np.abs(res).max())
         _track(ctx, name, r / (tol + RTOL_NP))
         if r > tol + RTOL_NP:
@@ -1180,7 +1230,7 @@ def correspond(ctx):
         _orientation_case(ctx, spec, s)
         _stroh_case(ctx, spec, s)
         npts = rng.choice([1, 1, 3, 6, 9])
-        _field_case(ctx, spec, s, gen_points(rng, s, npts))
+        _field_case(ctx, spec, s, gen_points(rng, s, npts, ls=spec['lscale']))
     ctx.extra['degenerate_refused'] = n_deg
     ctx.extra['t_stroh_s'] = round(time.time() - t0, 2)
     t1 = time.time()
@@ -1194,7 +1244,7 @@ def correspond(ctx):
             continue
         _orientation_case(ctx, spec, s)
         _isok_case(ctx, spec, s)
-        _iso_case(ctx, spec, s, gen_points(rng, s, rng.choice([1, 4, 8, 12])))
+        _iso_case(ctx, spec, s, gen_points(rng, s, rng.choice([1, 4, 8, 12]), ls=spec['lscale']))
     for spec in gen_refusals(rng, ctx.n(54, 270)):
         _refusal_case(ctx, spec)
     ctx.extra['t_iso_refusals_s'] = round(time.time() - t1, 2)
@@ -1255,6 +1305,7 @@ def _clauses(ctx, spec, s, rng, kind):
     """every field clause of the property at a few points of one solved problem."""
     np = _np()
     rep0 = {'op': 'clauses', 'solver': kind, 'spec': spec}
+    ls = spec.get('lscale', 1.0)           # the length unit of the problem: every distance below is a multiple of it
     b = s.burgers
     bn = float(np.linalg.norm(b))
     C4 = s.C.Cijkl
@@ -1278,8 +1329,8 @@ def _clauses(ctx, spec, s, rng, kind):
     # ---- K is the traction coefficient of the slip plane: sigma(X m) . n = K b / (2 pi X) ----------------------
     if not np.iscomplexobj(K):
         beff = b          # the isotropic solver refuses what its closed form cannot carry (repo fix 9765d33)
-        for X in (1.0, 0.25, 7.0):
-            tr = s.stress(X * s.m + 0.5 * s.ξ).dot(s.n)
+        for X in (1.0 * ls, 0.25 * ls, 7.0 * ls):
+            tr = s.stress(X * s.m + 0.5 * ls * s.ξ).dot(s.n)
             want = K.dot(beff) / (2 * math.pi * X)
             ctx.stats.case('oracle:traction', (kind, X, str(spec['cij']), str(spec['m']), str(spec['n']), tuple(b)))
             if np.iscomplexobj(tr) or float(np.abs(tr - want).max()) > max(1e-7, 3 * spec['tol']) * float(np.abs(K).max()) * bn / X:
@@ -1288,11 +1339,11 @@ def _clauses(ctx, spec, s, rng, kind):
                 break
     # ---- field points ---------------------------------------------------------------------
     for it in range(3):
-        r = rng.choice([1.0, 0.03125, 8.0, 50.0, 1.0])
+        r = rng.choice([1.0, 0.03125, 8.0, 50.0, 1.0]) * ls
         th = rng.uniform(-math.pi + 0.05, math.pi - 0.05)
         if it == 0:
             th = rng.choice([0.0, math.pi / 2, -math.pi / 2, 3.0, -3.0, math.pi / 4])
-        z = rng.choice([0.0, 1.5, -20.0])
+        z = rng.choice([0.0, 1.5, -20.0]) * ls
         X = _frame_point(s, r, th, z)
         rep = dict(rep0, point=X.tolist(), r=r, theta=th)
         u, e, sg = s.displacement(X), s.strain(X), s.stress(X)
@@ -1336,10 +1387,10 @@ def _clauses(ctx, spec, s, rng, kind):
                 ctx.violate(f'{kind}:inverse-r', f'{kind}: strain/stress at {t} x distance is not 1/{t} of the value at {X.tolist()}', rep)
                 break
         # independent of the coordinate along the line; arrays = single points
-        Xz = X + 3.25 * s.ξ
+        Xz = X + 3.25 * ls * s.ξ
         arr = np.array([X, Xz, X])
         ua, ea, sa = s.displacement(arr), s.strain(arr), s.stress(arr)
-        us = bn * (abs(math.log(r)) + 4)
+        us = bn * (abs(math.log(r / ls)) + abs(math.log(ls)) + 4)
         if ua.shape != (3, 3) or ea.shape != (3, 3, 3) or float(np.abs(ua[0] - u).max()) > 1e-12 * us \
                 or float(np.abs(ea[2] - e).max()) > 1e-12 * es or float(np.abs(sa[0] - sg).max()) > 1e-12 * ss:
             ctx.violate(f'{kind}:array', f'{kind}: fields of an array of points differ from the single-point values', rep)
@@ -1347,8 +1398,8 @@ def _clauses(ctx, spec, s, rng, kind):
             ctx.violate(f'{kind}:line-invariance', f'{kind}: fields change along the dislocation line at {X.tolist()}', rep)
     # ---- Burgers vector: jump across the cut, continuity elsewhere -------------------------------
     for it in range(3):
-        r = rng.choice([1.0, 0.25, 30.0])
-        z = rng.choice([0.0, -2.0])
+        r = rng.choice([1.0, 0.25, 30.0]) * ls
+        z = rng.choice([0.0, -2.0]) * ls
         dlt = 1e-8
         up, dn = _frame_point(s, r, math.pi - dlt, z), _frame_point(s, r, -math.pi + dlt, z)
         uu = s.displacement(np.array([up, dn]))
@@ -1433,9 +1484,9 @@ def _covariance(ctx, spec, rng, kind):
     if max(abs(math.cos(ca) - math.cos(cb)), abs(math.sin(ca) - math.sin(cb))) > max(2e-8, 4 * spec['tol']):
         bad.append('characterangle')
     for it in range(3):
-        r = rng.choice([1.0, 0.125, 12.0])
+        r = rng.choice([1.0, 0.125, 12.0]) * spec.get('lscale', 1.0)
         th = rng.uniform(-3.0, 3.0)
-        X = _frame_point(A, r, th, rng.choice([0.0, 2.0]))
+        X = _frame_point(A, r, th, rng.choice([0.0, 2.0]) * spec.get('lscale', 1.0))
         Y = R.dot(X)
         es = bn / r
         ss = es * float(np.abs(A.C.Cijkl).max())
@@ -1556,7 +1607,8 @@ def _dispatch_sweep(ctx, sw, rng, clauses=True):
     mu = sw['mu'] * sw['scale']
     nu = sw['lam'] / (2 * (sw['lam'] + sw['mu']))
     T = np.array([m, n, xi])
-    fpts = SWEEP_PTS + [(rng.choice([0.05, 1.0, 40.0]), rng.uniform(-3.0, 3.0), rng.uniform(-3, 3))]
+    ls = sw.get('lscale', 1.0)
+    fpts = [(r * ls, t, z * ls) for r, t, z in SWEEP_PTS + [(rng.choice([0.05, 1.0, 40.0]), rng.uniform(-3.0, 3.0), rng.uniform(-3, 3))]]
     P = np.array([r * math.cos(t) * m + r * math.sin(t) * n + z * xi for r, t, z in fpts])
     rr = np.array([r for r, _, _ in fpts])
     orc = [iso_full_oracle(mu, nu, be, bn_, bs, r * math.cos(t), r * math.sin(t)) for r, t, _ in fpts]
@@ -1644,8 +1696,8 @@ def _dispatch_sweep(ctx, sw, rng, clauses=True):
         if float(np.abs(T.dot(A.burgers) - np.array([be, bn_, bs])).max()) > 3 * tol * bmax + 1e-12 * bnorm:
             ctx.violate('dispatch:burgers', f'stored Burgers vector has components {T.dot(A.burgers).tolist()} along m, n, ξ, '
                         f'requested {sw["bframe"]}', rep)
-        for r in (1.0, 0.25):
-            jmp = _jump(A, r, z=rng.choice([0.0, -2.0]))
+        for r in (1.0 * ls, 0.25 * ls):
+            jmp = _jump(A, r, z=rng.choice([0.0, -2.0]) * ls)
             ctx.stats.case('oracle:dispatch-jump', (eps, r, str(sw['dir']), str(sw['bframe']), str(sw['m']), str(sw['n']), str(sw['transform'])))
             if np.iscomplexobj(jmp) or float(np.abs(jmp - A.burgers).max()) > max(1e-6, 3 * tol) * bnorm:
                 ctx.violate('dispatch:burgers-jump', f'{got["auto"]} returned by solve_volterra_dislocation at anisotropy {eps}: '
@@ -1693,6 +1745,586 @@ def _observables(s, P):
     return out
 
 
+# ------------------------------------------------------------------------------------------
+# cross-cutting classes: forms of the field points, length / stiffness scales, one position array edited in place
+# between calls, aliasing of the constructor's arguments, forms of the constructor's arguments
+# ------------------------------------------------------------------------------------------
+FIELDS = ('displacement', 'strain', 'stress')
+
+
+def _call(f, *a, **k):
+    """an exception raised by the implementation is an observation: ('ok', value) | ('raised X: msg', None)"""
+    try:
+        return 'ok', f(*a, **k)
+    except Exception as e:  # noqa
+        return f'raised {type(e).__name__}: {e}', None
+
+
+def _rel(a, b, floor=0.0):
+    """max |a - b| / max(max |b|, floor); inf for shape mismatch or non-finite values."""
+    np = _np()
+    a, b = np.asarray(a), np.asarray(b)
+    if a.shape != b.shape or not (np.isfinite(a).all() and np.isfinite(b).all()):
+        return float('inf')
+    if a.size == 0:
+        return 0.0
+    sc = max(float(np.abs(b).max()), floor)
+    return float(np.abs(a - b).max()) / sc if sc > 0 else float(np.abs(a - b).max())
+
+
+def _int_points(rng, s, k):
+    """points with small integer lab coordinates (exact in every numeric type), off the line and off the cut."""
+    np = _np()
+    pts = []
+    for _ in range(400):
+        if len(pts) == k:
+            break
+        v = np.array([rng.randint(-9, 9) for _ in range(3)], dtype=float)
+        x, y = float(v.dot(s.m)), float(v.dot(s.n))
+        if x * x + y * y < 0.5 or abs(abs(math.atan2(y, x)) - math.pi) < 0.05:
+            continue
+        pts.append(v)
+    return np.array(pts)
+
+
+def _point_forms(P):
+    """the same (n, 3) integer-valued points in every form a caller may hand over: [(name, value, order)]"""
+    np = _np()
+    n = len(P)
+    Pi = P.astype(np.int64)
+    big = np.full((2 * n, 6), 77.0)
+    big[::2, 1:4] = P
+    ro = P.copy()
+    ro.setflags(write=False)
+    sc = [int, float, np.float32, np.int64, np.int32, np.float64, np.int16]
+    mixed = [[sc[(3 * i + j) % len(sc)](P[i, j]) for j in range(3)] for i in range(n)]
+    fwd = list(range(n))
+    forms = [('float64', P.copy(), fwd), ('int64', Pi, fwd), ('int32', Pi.astype(np.int32), fwd), ('int8', Pi.astype(np.int8), fwd),
+             ('float32', P.astype(np.float32), fwd), ('float16', P.astype(np.float16), fwd),
+             ('list of int lists', Pi.tolist(), fwd), ('tuple of int tuples', tuple(tuple(r) for r in Pi.tolist()), fwd),
+             ('list of float lists', P.tolist(), fwd), ('tuple of float tuples', tuple(tuple(r) for r in P.tolist()), fwd),
+             ('list of mixed python/numpy scalars', mixed, fwd), ('list of row arrays', [r.copy() for r in Pi], fwd),
+             ('Fortran order', np.asfortranarray(P), fwd), ('strided view', big[::2, 1:4], fwd), ('read-only', ro, fwd),
+             ('reversed view', P[::-1], fwd[::-1]), ('int Fortran', np.asfortranarray(Pi), fwd)]
+    return forms
+
+
+def _single_forms(p):
+    np = _np()
+    pi = [int(v) for v in p]
+    return [('(3,) float array', np.array(p, dtype=float)), ('(3,) int array', np.array(pi)), ('int list', pi), ('int tuple', tuple(pi)),
+            ('float list', [float(v) for v in p]), ('(3,) float32', np.array(p, dtype=np.float32)),
+            ('(1,3) int nested list', [pi]), ('(1,3) int array', np.array([pi])), ('(1,3) float array', np.array([p], dtype=float))]
+
+
+def _input_forms(ctx, spec, s, rng, kind):
+    """field points given as int / float32 / float16 arrays, nested lists and tuples of python ints / floats / numpy
+    scalars, Fortran-ordered, strided, read-only and reversed views, single points in every form, no points at all:
+    every field of the solver must be the float64 field of the float64 points (and satisfy Hooke's law exactly)."""
+    np = _np()
+    P = _int_points(rng, s, rng.choice([2, 3, 5]))
+    if len(P) < 2:
+        return
+    rep0 = {'op': 'forms', 'solver': kind, 'spec': spec, 'points': P.tolist()}
+    C4 = s.C.Cijkl
+    ref = {}
+    for f in FIELDS:
+        st, v = _call(getattr(s, f), P.copy())
+        if st != 'ok' or np.iscomplexobj(v):
+            ctx.violate(f'{kind}:forms-raises', f'{kind}.{f} at the float64 points {P.tolist()}: {st if st != "ok" else "complex result"}', rep0)
+            return
+        ref[f] = v
+    extra = ('eta',) if kind == 'stroh' or hasattr(s, 'eta') else (('theta',) if hasattr(s, 'theta') else ())
+    for f in extra:
+        ref[f] = getattr(s, f)(P.copy())
+    want_shape = {'displacement': (3,), 'strain': (3, 3), 'stress': (3, 3), 'eta': (6,), 'theta': ()}
+    # round-off of a sum depends on how many points are evaluated together: relative to the magnitudes that are summed
+    floor = {'displacement': float(np.linalg.norm(s.burgers)), 'strain': 0.0, 'eta': 0.0, 'theta': 1.0,
+             'stress': float(np.abs(C4).max()) * float(np.abs(ref['strain']).max())}
+    for name, val, order in _point_forms(P):
+        snap = np.array(val, dtype=float).tobytes() if not isinstance(val, (list, tuple)) else repr(val)
+        got = {}
+        rep = dict(rep0, form=name)
+        for f in FIELDS + extra:
+            ctx.stats.case('oracle:point-form', (kind, name, f, P.tobytes(), str(spec['cij']), str(spec['m']), str(spec['n'])),
+                           sample={'op': 'form of the field points', 'solver': kind, 'form': name, 'field': f})
+            st, v = _call(getattr(s, f), val)
+            if st != 'ok':
+                ctx.violate(f'{kind}:forms-raises', f'{kind}.{f}(points as {name}) {st}; points {P.tolist()}', rep)
+                continue
+            v = np.asarray(v)
+            if v.shape != (len(P),) + want_shape[f]:
+                ctx.violate(f'{kind}:forms-shape', f'{kind}.{f}(points as {name}) has shape {v.shape} for {len(P)} points', rep)
+                continue
+            got[f] = v
+            if v.dtype != (np.complex128 if f == 'eta' else np.float64):
+                ctx.violate(f'{kind}:forms-dtype', f'{kind}.{f}(points as {name}) has dtype {v.dtype}: the field of integer / single-'
+                            f'precision points is still a double-precision field; points {P.tolist()}', rep)
+                continue
+            d = _rel(v[np.argsort(order)] if order != sorted(order) else v, ref[f], floor[f])
+            if d > 1e-12:
+                ctx.violate(f'{kind}:forms-value', f'{kind}.{f} of the points {P.tolist()} given as {name} differs from the field of the '
+                            f'same points given as a float64 array by {d:.3e} (relative): {v.tolist()} vs {ref[f].tolist()}', rep)
+            if not isinstance(val, (list, tuple)) and np.shares_memory(v, val):
+                ctx.violate(f'{kind}:aliased-output', f'{kind}.{f}(points as {name}) returns an array that shares memory with the points', rep)
+        now = np.array(val, dtype=float).tobytes() if not isinstance(val, (list, tuple)) else repr(val)
+        if now != snap:
+            ctx.violate(f'{kind}:input-modified', f'{kind}: evaluating the fields modified the points handed over as {name}', rep)
+        # the property's clause itself on what came back for this form: stress = C : strain, exactly on the doubles
+        if 'strain' in got and 'stress' in got and got['strain'].dtype.kind == 'f' and got['stress'].dtype.kind == 'f':
+            for i in range(len(P)):
+                e, sg = got['strain'][i], got['stress'][i]
+                sig, mag = _exact_C_strain(C4, e)
+                ss = max(float(np.abs(ref['stress'][order[i]]).max()), 1e-300)
+                bad = [(a, b_) for a in range(3) for b_ in range(3)
+                       if abs(float(sg[a][b_]) - float(sig[a][b_])) > 1e-11 * float(mag[a][b_]) + 2.5 * spec['tol'] * ss]
+                if bad:
+                    ctx.violate(f'{kind}:hooke', f'{kind}: points given as {name}: stress at {P[order[i]].tolist()} is not C:strain in '
+                                f'components {bad}: stress {sg.tolist()}, strain {e.tolist()}', rep)
+                    break
+    for name, val in _single_forms(P[0]):
+        rep = dict(rep0, form=name, single=True)
+        for f in FIELDS:
+            ctx.stats.case('oracle:point-form', (kind, name, f, P[0].tobytes(), str(spec['cij']), str(spec['m']), str(spec['n'])))
+            st, v = _call(getattr(s, f), val)
+            if st != 'ok':
+                ctx.violate(f'{kind}:forms-raises', f'{kind}.{f}(single point as {name}) {st}; point {P[0].tolist()}', rep)
+                continue
+            v = np.asarray(v)
+            if v.shape != want_shape[f] or v.dtype != np.float64:
+                ctx.violate(f'{kind}:forms-shape', f'{kind}.{f}(single point {P[0].tolist()} as {name}) has shape {v.shape}, dtype {v.dtype}', rep)
+            elif _rel(v, ref[f][0], floor[f]) > 1e-12:
+                ctx.violate(f'{kind}:forms-value', f'{kind}.{f} of the single point {P[0].tolist()} given as {name} differs from the '
+                            f'array evaluation: {v.tolist()} vs {ref[f][0].tolist()}', rep)
+    for name, val in (('empty (0,3) float array', np.zeros((0, 3))), ('empty (0,3) int array', np.zeros((0, 3), dtype=int))):
+        for f in FIELDS:
+            st, v = _call(getattr(s, f), val)
+            if st != 'ok' or np.asarray(v).shape != (0,) + want_shape[f]:
+                ctx.violate(f'{kind}:forms-empty', f'{kind}.{f}({name}): {st}, shape {None if v is None else np.asarray(v).shape}',
+                            dict(rep0, form=name))
+
+
+UNIT_FACTORS = [(1e-10, 1.602176634e11), (0.1, 160.2176634), (1e-8, 1.602176634e12), (1.8897261246, 5.446e-3), (1e-10, 1.0), (1.0, 1e11)]
+
+
+def _scale_sweep(ctx, spec0, rng, kind):
+    """the same physical problem in other units: lengths (cell or Burgers vector, field points) times ls, stiffness
+    times cs.  The solution is homogeneous: accepted / refused alike, u(ls x) - u(ls x0) = ls (u(x) - u(x0)), jump across
+    the cut = ls b, strain unchanged, stress / K_tensor / K_coeff times cs, preln times cs ls^2.  Powers of two (exact in
+    binary floating point) down to 2^-100 / up to 2^100 for lengths and 2^-+200 for the stiffness, and the factors of a few
+    real unit systems (metre and pascal, nm and GPa, cm and dyn/cm^2, bohr and hartree/bohr^3)."""
+    np = _np()
+    st0, base = _outcome_obj(spec0, kind)
+    if st0 != 'ok':
+        return
+    if hasattr(base, 'A') and float(np.linalg.cond(np.hstack([base.A, base.L / float(np.abs(base.C.Cijkl).max())]).T)) > 1e5:
+        return        # nearly defective eigenproblem: whether the eigen-solver's output passes the self-checks is luck
+    ls0 = spec0.get('lscale', 1.0)
+    m, n, xi = base.m, base.n, base.ξ
+    b0 = base.burgers
+    bn0 = float(np.linalg.norm(b0))
+    fr = [(1.0, 0.6), (0.3, -2.2), (7.0, 2.8), (25.0, -0.9), (1.0, math.pi - 1e-8), (1.0, -math.pi + 1e-8)]
+    P0 = np.array([ls0 * r * (math.cos(t) * m + math.sin(t) * n) + ls0 * z * xi for (r, t), z in zip(fr, (0.0, 1.5, -3.0, 0.0, 0.0, 0.0))])
+    U0, E0, S0, K0 = base.displacement(P0), base.strain(P0), base.stress(P0), base.K_tensor
+    if any(np.iscomplexobj(a) for a in (U0, E0, S0, K0)):
+        ctx.violate(f'{kind}:field:real', f'{kind}: fields at off-cut points are complex', {'op': 'scale', 'solver': kind, 'spec': spec0, 'ls': 1.0, 'cs': 1.0})
+        return
+    combos = [(2.0 ** rng.choice(LEN_EXPS), 1.0), (1.0, 2.0 ** rng.choice(STIFF_EXPS)), (2.0 ** rng.choice(LEN_EXPS), 2.0 ** rng.choice(STIFF_EXPS)),
+              (2.0 ** rng.choice([-34, -30, -27, -40]), 1.0), (2.0 ** rng.choice([27, 30, 34, 60]), 2.0 ** rng.choice([-30, 30, 37])),
+              rng.choice(UNIT_FACTORS), rng.choice(UNIT_FACTORS)]
+    for ls, cs in combos:
+        pow2 = math.frexp(ls)[0] == 0.5 and math.frexp(cs)[0] == 0.5
+        spec = apply_stiffness_scale(apply_length_scale(spec0, ls, via_box=rng.random() < 0.5), cs)
+        rep = {'op': 'scale', 'solver': kind, 'spec': spec0, 'ls': ls, 'cs': cs, 'scaled': spec}
+        ctx.stats.case('oracle:scale', (kind, ls, cs, str(spec0['cij']), str(spec0['m']), str(spec0['n']), str(spec0['transform']), str(spec0['burgers'])),
+                       sample={'op': 'same problem in other units', 'solver': kind, 'length factor': ls, 'stiffness factor': cs})
+        st, s = _outcome_obj(spec, kind)
+        if st != 'ok':
+            ctx.violate(f'{kind}:scale-refused', f'{kind}: a problem that is solved is refused ({st}: {s}) when lengths are multiplied by '
+                        f'{ls!r} and the stiffness by {cs!r} ({spec0["cls"]}, route {spec0["route"]})', rep)
+            continue
+        if type(s) is not type(base):
+            ctx.violate(f'{kind}:scale-class', f'solve_volterra_dislocation returns {type(s).__name__} instead of {type(base).__name__} '
+                        f'when lengths are multiplied by {ls!r} and the stiffness by {cs!r}', rep)
+            continue
+        rt = 1e-11 if pow2 else 1e-9
+        P = P0 * ls
+        U, E, S, K = s.displacement(P), s.strain(P), s.stress(P), s.K_tensor
+        if any(np.iscomplexobj(a) for a in (U, E, S, K)):
+            ctx.violate(f'{kind}:field:real', f'{kind}: fields at off-cut points are complex when lengths are multiplied by {ls!r} and the '
+                        f'stiffness by {cs!r}: dtypes {[a.dtype.name for a in (U, E, S, K)]}', rep)
+            continue
+        bad = []
+        if _rel(s.transform, base.transform, 1.0) > 1e-14:
+            bad.append('transform')
+        if _rel(s.burgers / ls, b0) > max(rt, 3 * spec0['tol'] if not pow2 else rt):
+            bad.append(f'burgers {s.burgers.tolist()} is not {ls!r} x {b0.tolist()}')
+        # the property's clause: jump across the cut = Burgers vector
+        jmp = U[4] - U[5]
+        if float(np.abs(jmp - ls * b0).max()) > max(1e-6, 3 * spec0['tol']) * ls * bn0:
+            bad.append(f'jump across the cut {jmp.tolist()} is not the Burgers vector {(ls * b0).tolist()}')
+        lg = abs(math.log(ls)) + abs(math.log(ls0)) + 6
+        if float(np.abs((U - U[0]) / ls - (U0 - U0[0])).max()) > rt * bn0 * lg * 10:
+            bad.append(f'displacement differences / {ls!r}: {((U - U[0]) / ls).tolist()} vs {(U0 - U0[0]).tolist()}')
+        if _rel(E, E0) > rt * 100:
+            bad.append(f'strain changed: {E.tolist()} vs {E0.tolist()}')
+        if _rel(S / cs, S0) > rt * 100:
+            bad.append(f'stress / {cs!r}: {(S / cs).tolist()} vs {S0.tolist()}')
+        if _rel(K / cs, K0) > max(rt * 100, 0 if pow2 else 3 * spec0['tol']):
+            bad.append(f'K_tensor / {cs!r}: {(K / cs).tolist()} vs {K0.tolist()}')
+        if abs(s.K_coeff / cs - base.K_coeff) > max(rt * 100, 0 if pow2 else 3 * spec0['tol']) * abs(base.K_coeff) \
+                or abs(s.preln / (cs * ls * ls) - base.preln) > max(rt * 100, 0 if pow2 else 3 * spec0['tol']) * abs(base.preln):
+            bad.append(f'K_coeff {s.K_coeff!r}, preln {s.preln!r} vs {base.K_coeff!r}, {base.preln!r}')
+        if bad:
+            ctx.violate(f'{kind}:scale', f'{kind}: the same problem with lengths x {ls!r} and stiffness x {cs!r} is not the scaled '
+                        f'solution ({spec0["cls"]}, route {spec0["route"]}, m={spec0["m"]}, n={spec0["n"]}): {bad[:3]}', rep)
+
+
+def _inplace_sequence(ctx, spec, rng, kind):
+    """hidden state keyed on the argument's identity: ONE position array is evaluated, edited in place (shifted, one
+    column nudged, doubled, one row replaced, overwritten), evaluated again ...; every result must be the field at the
+    array's CURRENT contents (= what a second solver object gives for a fresh copy), the 1/r law and the symmetric
+    gradient hold along the way, the points are never modified, results are fresh arrays that are not shared."""
+    np = _np()
+    st, s = _outcome_obj(spec, kind)
+    st2, fresh = _outcome_obj(spec, kind)
+    if st != 'ok' or st2 != 'ok':
+        return
+    ls = spec.get('lscale', 1.0)
+    rep = {'op': 'inplace', 'solver': kind, 'spec': spec}
+    P = np.array(gen_points(rng, s, rng.choice([1, 3, 4]), special=False, ls=ls))
+    extra = ['eta'] if hasattr(s, 'eta') else (['theta'] if hasattr(s, 'theta') and len(P) > 1 else [])
+    bn = float(np.linalg.norm(s.burgers))
+    hist = []
+    prev = None
+    edits = ['none', 'shift', 'column', 'double', 'halve', 'row', 'overwrite', 'temp', 'negate', 'double']
+    for step in range(rng.choice([5, 7, 9])):
+        ed = 'none' if step == 0 else rng.choice(edits)
+        arg = P
+        if ed == 'shift':
+            P += np.array([rng.uniform(-0.3, 0.3) * ls for _ in range(3)])
+        elif ed == 'column':
+            P[:, rng.randrange(3)] += rng.choice([1e-3, 0.05, -0.2]) * ls
+        elif ed == 'double':
+            P *= 2.0
+        elif ed == 'halve':
+            P /= 2.0
+        elif ed == 'row':
+            P[rng.randrange(len(P))] = gen_points(rng, s, 1, special=False, ls=ls)[0]
+        elif ed == 'overwrite':
+            np.copyto(P, np.array(gen_points(rng, s, len(P), special=False, ls=ls)))
+        elif ed == 'negate':
+            np.negative(P, out=P)
+        elif ed == 'temp':
+            arg = P * rng.choice([1.0, 3.0, 0.25]) + 0.0          # a temporary that nobody keeps (its address may be reused)
+        hist.append(ed)
+        cur = np.array(arg, copy=True)
+        r1 = dict(rep, history=list(hist), points=cur.tolist())
+        order = list(FIELDS) + extra
+        rng.shuffle(order)
+        vals = {}
+        for f in order:
+            ctx.stats.case('oracle:inplace', (kind, f, cur.tobytes(), str(spec['cij']), str(spec['m']), str(spec['n']), tuple(hist)),
+                           sample={'op': 'one position array edited in place', 'solver': kind, 'edit': ed, 'field': f})
+            stf, v = _call(getattr(s, f), arg)
+            stw, w = _call(getattr(fresh, f), cur.copy())
+            if stf != 'ok' or stw != 'ok':
+                ctx.violate(f'{kind}:inplace-raises', f'{kind}.{f} after the edits {hist}: {stf} / fresh object: {stw}', r1)
+                return
+            if not np.array_equal(arg, cur):
+                ctx.violate(f'{kind}:input-modified', f'{kind}.{f} modified the position array it was given (after the edits {hist})', r1)
+                return
+            if not np.array_equal(np.asarray(v), np.asarray(w), equal_nan=True):
+                ctx.violate(f'{kind}:stale-positions', f'{kind}.{f} of a position array that was edited in place ({hist}) is not the field at '
+                            f'its current contents {cur.tolist()}: {np.asarray(v).tolist()}, a fresh solver with a fresh copy gives '
+                            f'{np.asarray(w).tolist()} (relative difference {_rel(v, w):.3e})', r1)
+                return
+            vals[f] = np.array(v, copy=True)
+            if isinstance(v, np.ndarray) and v.ndim > 0:
+                if np.shares_memory(v, arg):
+                    ctx.violate(f'{kind}:aliased-output', f'{kind}.{f} returns an array that shares memory with the points', r1)
+                    return
+                v[...] = -12345.0                                  # scribble over the result: the next call must not see it
+                st3, v3 = _call(getattr(s, f), arg)
+                if st3 != 'ok' or not np.array_equal(np.asarray(v3), vals[f], equal_nan=True) or (isinstance(v3, np.ndarray) and np.shares_memory(v3, v)):
+                    ctx.violate(f'{kind}:aliased-output', f'{kind}.{f}: writing into a returned array changes what the next call returns '
+                                f'(or both calls return the same buffer)', r1)
+                    return
+        # the property's clauses along the way (no second object involved)
+        if prev is not None and ed in ('double', 'halve') and not np.iscomplexobj(vals['strain']):
+            t = 2.0 if ed == 'double' else 0.5
+            if _rel(vals['strain'] * t, prev['strain']) > 1e-12 or _rel(vals['stress'] * t, prev['stress']) > 1e-12:
+                ctx.violate(f'{kind}:inverse-r', f'{kind}: after `pos {"*=" if t == 2.0 else "/="} 2` on the same array strain / stress are not '
+                            f'{1 / t} x the previous values: strain {vals["strain"].tolist()}, before {prev["strain"].tolist()}', r1)
+                return
+        prev = vals if ed != 'temp' else None
+    # finite-difference loop that nudges ONE array in place: symmetric gradient of the displacement vs strain
+    Q = np.array(gen_points(rng, s, 2, special=False, ls=ls))
+    rr = np.hypot(Q.dot(s.m), Q.dot(s.n))
+    th = np.arctan2(Q.dot(s.n), Q.dot(s.m))
+    if float(np.abs(np.abs(th) - math.pi).min()) > 0.05 and float(rr.min()) > 0:
+        h = 1e-4 * float(rr.min())
+        e0 = np.array(s.strain(Q), copy=True).reshape(len(Q), 3, 3)
+        G = np.zeros((len(Q), 3, 3))
+        ok = True
+        for j in range(3):
+            Q[:, j] += h
+            up = np.array(s.displacement(Q), copy=True)
+            Q[:, j] -= 2 * h
+            dn = np.array(s.displacement(Q), copy=True)
+            Q[:, j] += h
+            if np.iscomplexobj(up) or np.iscomplexobj(dn):
+                ok = False
+                break
+            G[:, :, j] = (up - dn) / (2 * h)
+        if ok and not np.iscomplexobj(e0):
+            sym = (G + np.transpose(G, (0, 2, 1))) / 2
+            es = np.maximum(np.abs(e0).reshape(len(Q), -1).max(axis=1), bn / (2 * math.pi * rr))
+            d = float((np.abs(sym - e0).reshape(len(Q), -1).max(axis=1) / es).max())
+            ctx.stats.case('oracle:inplace-fd', (kind, Q.tobytes(), str(spec['cij']), str(spec['m']), str(spec['n'])))
+            if d > 1e-5:
+                ctx.violate(f'{kind}:strain-symgrad', f'{kind}: central differences of the displacement taken by nudging one coordinate array in '
+                            f'place (pos[:, j] += h) differ from the strain by {d:.3e} (relative) at {Q.tolist()}: sym grad {sym.tolist()}, '
+                            f'strain {e0.tolist()}', dict(rep, points=Q.tolist(), h=h))
+
+
+def _mutable_args(spec):
+    """the constructor's arguments as objects the caller keeps (numpy arrays, ElasticConstants, Box): (C, burgers, kwargs)."""
+    import atomman as am
+    np = _np()
+    C = am.ElasticConstants(Cij=np.array(spec['cij'], dtype=float))
+    b = np.array(resolve_burgers(spec), dtype=float)
+    kw = solver_kwargs(spec)
+    for key in ('m', 'n'):
+        if not isinstance(kw[key], str):
+            kw[key] = np.array(kw[key], dtype=float)
+    for key in ('ξ_uvw', 'slip_hkl'):
+        if key in kw:
+            kw[key] = np.array(kw[key], dtype=float)
+    return C, b, kw
+
+
+def _arg_snapshot(C, b, kw):
+    np = _np()
+    out = {'C.Cij': C.Cij.tobytes(), 'burgers': b.tobytes()}
+    for key, v in kw.items():
+        if isinstance(v, np.ndarray):
+            out[key] = v.tobytes()
+        elif key == 'box':
+            out['box'] = v.vects.tobytes() + v.origin.tobytes()
+    return out
+
+
+def _all_observables(s, P):
+    np = _np()
+    out = {}
+    for nm in ('burgers', 'transform', 'm', 'n', 'ξ', 'K_tensor', 'K_coeff', 'preln', 'p', 'A', 'L', 'k', 'mu', 'nu', 'tol'):
+        if hasattr(s, nm):
+            out[nm] = np.array(getattr(s, nm), copy=True)
+    out['C.Cij'] = s.C.Cij
+    out['C.Cijkl'] = s.C.Cijkl
+    out['characterangle'] = np.array(s.characterangle())
+    for f in FIELDS:
+        out[f] = np.array(getattr(s, f)(P.copy()), copy=True)
+    return out
+
+
+def _arg_aliasing(ctx, spec, rng, kind):
+    """aliasing of the constructor's arguments: the caller keeps C (an ElasticConstants object), the Burgers vector, the
+    orientation arrays, the axes m, n and the box, and edits / recycles each of them after the solution was computed:
+    no observable of the solution may change (stress = C : strain for the medium that was solved); nothing handed over is
+    modified by the solver; array-valued results are fresh (writing into them changes nothing); a second solution built
+    from the recycled objects is the solution of the new problem."""
+    import atomman as am
+    np = _np()
+    cls = {'stroh': am.defect.Stroh, 'iso': am.defect.IsotropicVolterraDislocation, 'auto': am.defect.solve_volterra_dislocation}[kind]
+    C, b, kw = _mutable_args(spec)
+    rep = {'op': 'aliasing', 'solver': kind, 'spec': spec}
+    snap = _arg_snapshot(C, b, kw)
+    st, s = _call(cls, C, b, **kw)
+    if st != 'ok':
+        return
+    ctx.stats.case('oracle:aliasing', (kind, str(spec['cij']), str(spec['m']), str(spec['n']), str(spec['transform']), str(spec['box'])),
+                   sample={'op': 'arguments edited after solving', 'solver': kind, **_spec_sample(spec)})
+    after = _arg_snapshot(C, b, kw)
+    mod = [k_ for k_ in snap if snap[k_] != after[k_]]
+    if mod:
+        ctx.violate(f'{kind}:input-modified', f'{kind}: constructing the solution modified its arguments {mod}', rep)
+        return
+    ls = spec.get('lscale', 1.0)
+    P = np.array(gen_points(rng, s, 3, special=False, ls=ls))
+    obs0 = _all_observables(s, P)
+    C4 = obs0['C.Cijkl']
+    other = gen_iso_spec(rng) if kind == 'iso' else gen_spec(rng, cls=rng.choice(['cubic', 'orthorhombic', 'triclinic']),
+                                                              scales=(spec.get('cscale', 1.0), 1.0))
+    R2 = _rot_float(quat_rot(rng.choice(QUATS[1:8])))
+    edits = [('C.Cij = <another medium>', lambda: setattr(C, 'Cij', np.array(other['cij'], dtype=float))),
+             ('burgers *= -3', lambda: b.__imul__(-3.0)),
+             ('burgers[:] = [7, 7, 7]', lambda: b.__setitem__(slice(None), 7.0 * ls))]
+    for key in ('transform', 'axes'):
+        if key in kw:
+            edits.append((f'{key}[:] = <another rotation>', lambda key=key: kw[key].__setitem__(slice(None), R2)))
+    for key in ('m', 'n'):
+        if isinstance(kw[key], np.ndarray):
+            edits.append((f'{key}[:] = <another axis>', lambda key=key: kw[key].__setitem__(slice(None), R2[0] if key == 'm' else R2[1])))
+            edits.append((f'{key} *= 2', lambda key=key: kw[key].__imul__(2.0)))
+    for key in ('ξ_uvw', 'slip_hkl'):
+        if key in kw:
+            edits.append((f'{key}[:] = [1, 0, 0]', lambda key=key: kw[key].__setitem__(slice(None), [1.0, 0.0, 0.0] + [0.0] * (len(kw[key]) - 3))))
+    if 'box' in kw:
+        edits.append(('box.set(vects=<another cell>)', lambda: kw['box'].set(vects=np.array(BOXES[2], dtype=float) * 1.5)))
+    rng.shuffle(edits)
+    done = []
+    for name, act in edits:
+        act()
+        done.append(name)
+        r1 = dict(rep, edits=list(done))
+        st1, obs = _call(_all_observables, s, P)
+        if st1 != 'ok':
+            ctx.violate(f'{kind}:aliased-argument', f'{kind}: after the caller\'s `{name}` reading the solution {st1}', r1)
+            return
+        diff = [k_ for k_ in obs0 if not np.array_equal(obs0[k_], obs[k_], equal_nan=True)]
+        if diff:
+            # the property's clause on what is returned now: stress = C : strain for the medium that was solved
+            sig, mag = _exact_C_strain(C4, obs['strain'][0])
+            hooke = max(abs(float(obs['stress'][0][i][j]) - float(sig[i][j])) for i in range(3) for j in range(3))
+            ctx.violate(f'{kind}:aliased-argument', f'{kind}: the solution shares state with its arguments: after the caller\'s `{name}` '
+                        f'(all edits so far: {done}) {diff} of the solved dislocation changed; stress - C:strain (medium that was '
+                        f'solved) is now {hooke:.3e} at {P[0].tolist()} ({spec["cls"]}, route {spec["route"]}, m={spec["m"]}, n={spec["n"]})', r1)
+            return
+    # a second solution from the recycled objects = the solution of the new problem from fresh objects
+    C2, b2, kw2 = _mutable_args(other)
+    stA, sA = _call(cls, C2, b2, **kw2)
+    if stA == 'ok':
+        C.Cij = np.array(other['cij'], dtype=float)
+        if b.shape == b2.shape:
+            b[:] = b2
+        else:
+            b = b2.copy()
+        kwB = dict(kw2)
+        stB, sB = _call(cls, C, b, **kwB)
+        if stB != 'ok':
+            ctx.violate(f'{kind}:aliased-argument', f'{kind}: a problem that fresh objects solve is refused when the caller recycles its '
+                        f'ElasticConstants / Burgers-vector objects: {stB}', dict(rep, other=other))
+        else:
+            PA = np.array(gen_points(rng, sA, 2, special=False, ls=other.get('lscale', 1.0)))
+            oa, ob = _all_observables(sA, PA), _all_observables(sB, PA)
+            diff = [k_ for k_ in oa if not np.array_equal(oa[k_], ob[k_], equal_nan=True)]
+            if diff:
+                ctx.violate(f'{kind}:aliased-argument', f'{kind}: a solution built from recycled argument objects differs from the one built '
+                            f'from fresh objects in {diff}', dict(rep, other=other))
+            # and the first solution still stands
+            obs = _all_observables(s, P)
+            diff = [k_ for k_ in obs0 if not np.array_equal(obs0[k_], obs[k_], equal_nan=True)]
+            if diff:
+                ctx.violate(f'{kind}:aliased-argument', f'{kind}: constructing a second solution changed {diff} of the first', dict(rep, other=other))
+    # results are fresh: writing into a returned array changes nothing
+    for nm in ('burgers', 'transform', 'm', 'n', 'ξ', 'K_tensor', 'p', 'A', 'L', 'k'):
+        if not hasattr(s, nm):
+            continue
+        a = getattr(s, nm)
+        if not isinstance(a, np.ndarray) or a.ndim == 0:
+            continue
+        try:
+            a[...] = 4321.0
+        except ValueError:
+            continue                       # a read-only view is as good as a copy
+        now = _all_observables(s, P)
+        diff = [k_ for k_ in obs0 if not np.array_equal(obs0[k_], now[k_], equal_nan=True)]
+        if diff:
+            ctx.violate(f'{kind}:aliased-output', f'{kind}: writing into the array returned by `.{nm}` changes {diff} of the solution '
+                        f'(the object hands out its internal state)', dict(rep, getter=nm))
+            return
+    for nm, get in (('C.Cij', lambda: s.C.Cij), ('C.Cijkl', lambda: s.C.Cijkl)):
+        a = get()
+        a[...] = 4321.0
+        if not np.array_equal(get(), obs0[nm]):
+            ctx.violate(f'{kind}:aliased-output', f'{kind}: writing into the array returned by `.{nm}` changes the stored medium', dict(rep, getter=nm))
+
+
+def _arg_forms(ctx, spec, rng, kind):
+    """the constructor's arguments in other forms: lists / tuples / integer and single-precision arrays / Fortran-ordered,
+    strided and read-only arrays where the values are exactly representable, numpy bools and ints for the flags, all
+    arguments positional, axes= for transform=: the solution is the same."""
+    import atomman as am
+    np = _np()
+    cls = {'stroh': am.defect.Stroh, 'iso': am.defect.IsotropicVolterraDislocation, 'auto': am.defect.solve_volterra_dislocation}[kind]
+    C, b, kw = _mutable_args(spec)
+    st, s0 = _call(cls, C, b, **kw)
+    if st != 'ok':
+        return
+    ls = spec.get('lscale', 1.0)
+    P = np.array(gen_points(rng, s0, 2, special=False, ls=ls))
+    obs0 = _all_observables(s0, P)
+    rep = {'op': 'argforms', 'solver': kind, 'spec': spec}
+
+    def exact(a, dt):
+        return np.array_equal(np.asarray(a, dtype=dt).astype(float), np.asarray(a, dtype=float))
+
+    def variants(a, unit_rows=False):
+        a = np.asarray(a, dtype=float)
+        out = [('list', a.tolist()), ('tuple', tuple(tuple(r) for r in a.tolist()) if a.ndim == 2 else tuple(a.tolist())), ('Fortran order', np.asfortranarray(a))]
+        ro = a.copy()
+        ro.setflags(write=False)
+        out.append(('read-only', ro))
+        big = np.full(tuple(2 * d for d in a.shape), 55.0)
+        big[tuple(slice(None, None, 2) for _ in a.shape)] = a
+        out.append(('strided view', big[tuple(slice(None, None, 2) for _ in a.shape)]))
+        if exact(a, np.int64):
+            out += [('int64 array', a.astype(np.int64)), ('int list', a.astype(np.int64).tolist())]
+        if exact(a, np.int32):
+            out.append(('int32 array', a.astype(np.int32)))
+        # (single-precision orientation matrices are normalised and stored in single precision: not demanded)
+        if exact(a, np.float32) and not unit_rows:
+            out.append(('float32 array', a.astype(np.float32)))
+        return out
+    trials = []
+    for nm, v in variants(b):
+        trials.append((f'burgers as {nm}', (C, v), dict(kw)))
+    for key in ('transform', 'axes', 'ξ_uvw', 'slip_hkl', 'm', 'n'):
+        if key in kw and isinstance(kw[key], np.ndarray):
+            for nm, v in variants(kw[key], unit_rows=key in ('transform', 'axes')):
+                trials.append((f'{key} as {nm}', (C, b), dict(kw, **{key: v})))
+    if 'transform' in kw:
+        k2 = dict(kw)
+        k2['axes'] = k2.pop('transform')
+        trials.append(('axes= instead of transform=', (C, b), k2))
+    trials.append(('cart_axes as numpy bool, tol as numpy float', (C, b), dict(kw, cart_axes=np.bool_(kw['cart_axes']), tol=np.float64(kw['tol']))))
+    trials.append(('cart_axes as int', (C, b), dict(kw, cart_axes=int(kw['cart_axes']))))
+    full = dict(ξ_uvw=None, slip_hkl=None, transform=None, axes=None, box=None, m='x', n='y', cart_axes=False, tol=1e-8)
+    full.update(kw)
+    trials.append(('all arguments positional', (C, b) + tuple(full[k_] for k_ in ('ξ_uvw', 'slip_hkl', 'transform', 'axes', 'box', 'm', 'n', 'cart_axes', 'tol')), {}))
+    rng.shuffle(trials)
+    for name, args, kws in trials[:10]:
+        ctx.stats.case('oracle:arg-form', (kind, name, str(spec['cij']), str(spec['m']), str(spec['n']), str(spec['transform']), str(spec['burgers'])),
+                       sample={'op': 'form of the constructor arguments', 'solver': kind, 'form': name})
+        st, s = _call(cls, *args, **kws)
+        if st != 'ok':
+            ctx.violate(f'{kind}:argform-raises', f'{kind}: the problem is solved with arrays but with {name}: {st}', dict(rep, form=name))
+            continue
+        st, obs = _call(_all_observables, s, P)
+        if st != 'ok':
+            ctx.violate(f'{kind}:argform-raises', f'{kind} built with {name}: reading the solution {st}', dict(rep, form=name))
+            continue
+        # (the eigenvectors' normalisation and phase are the eigen-solver's choice: compared through the fields and K)
+        diff = [k_ for k_ in obs0 if k_ not in ('A', 'L', 'k') and (_rel(obs[k_], obs0[k_]) > (1e-8 if k_ == 'p' else 1e-11)
+                                                                     or np.asarray(obs[k_]).dtype != np.asarray(obs0[k_]).dtype)]
+        if diff:
+            ctx.violate(f'{kind}:argform', f'{kind}: with {name} the solution differs in {diff} from the one built with float64 arrays '
+                        f'({spec["cls"]}, route {spec["route"]})', dict(rep, form=name))
+    # options that exclude each other are refused (AssertionError), whatever else is given
+    Tm = np.eye(3)
+    for name, extra in (('transform and axes', dict(transform=Tm, axes=Tm)), ('ξ_uvw without slip_hkl', dict(ξ_uvw=[1, 0, 0])),
+                        ('slip_hkl without ξ_uvw', dict(slip_hkl=[0, 1, 0])), ('ξ_uvw, slip_hkl and transform', dict(ξ_uvw=[0, 0, 1], slip_hkl=[0, 1, 0], transform=Tm)),
+                        ('ξ_uvw, slip_hkl and axes', dict(ξ_uvw=[0, 0, 1], slip_hkl=[0, 1, 0], axes=Tm))):
+        k2 = {k_: v for k_, v in kw.items() if k_ not in ('transform', 'axes', 'ξ_uvw', 'slip_hkl')}
+        k2.update(extra)
+        st, _s = _call(cls, C, b, **k2)
+        ctx.stats.case('oracle:arg-exclusive', (kind, name))
+        if not st.startswith('raised AssertionError'):
+            ctx.violate(f'{kind}:options-exclusive', f'{kind}: {name} given together must be refused with an AssertionError, got: {st}', dict(rep, form=name))
+
+
 def _resolve_sequence(ctx, rng):
     """object-level state: one solver object is solved, read, solved again for a different problem and read again;
     every observable must equal that of a freshly constructed object (nothing may survive from the first problem), and
@@ -1710,7 +2342,7 @@ def _resolve_sequence(ctx, rng):
         return
     import atomman as am
     s = build(specs[0], kind)
-    P0 = np.array(gen_points(rng, s, 3, special=False))
+    P0 = np.array(gen_points(rng, s, 3, special=False, ls=specs[0]['lscale']))
     first = _observables(s, P0)
     again = _observables(s, P0)
     ctx.stats.case('oracle:re-solve', (kind, str(specs)), sample={'op': 'solve -> read -> solve -> read', 'solver': kind})
@@ -1721,7 +2353,7 @@ def _resolve_sequence(ctx, rng):
             return
     for sp in specs[1:] + [specs[0]]:
         fresh = build(sp, kind)
-        P = np.array(gen_points(rng, fresh, 3, special=False))
+        P = np.array(gen_points(rng, fresh, 3, special=False, ls=sp['lscale']))
         C = am.ElasticConstants(Cij=np.array(sp['cij'], dtype=float))
         try:
             s.solve(C, resolve_burgers(sp), **solver_kwargs(sp))
@@ -1805,6 +2437,17 @@ def _orientation_oracle(ctx, spec, s):
         ctx.violate('orientation:frame', 'stored m, n, ξ are not the requested axes', rep)
 
 
+def _guarded(ctx, name, kind, spec, op):
+    """an exception that escapes one of the cross-cutting operations is reported with the problem, never a crash."""
+    try:
+        op()
+    except Exception as e:  # noqa
+        import traceback
+        tb = traceback.extract_tb(e.__traceback__)[-1]
+        ctx.violate(f'{kind}:{name}-raises', f'{kind}: {name}: {type(e).__name__}: {e} ({tb.filename.rsplit("/", 1)[-1]}:{tb.lineno} {tb.name})',
+                    {'op': name, 'solver': kind, 'spec': spec})
+
+
 def search(ctx, broken):
     rng = random.Random(ctx.seed * 7919 + 12)
     mult = 3 if broken else 1
@@ -1829,6 +2472,15 @@ def search(ctx, broken):
         _clauses(ctx, spec, s, rng, kind)
         if it % 2 == 0:
             _covariance(ctx, spec, rng, kind)
+        # cross-cutting classes, each on every third problem (and through the entry point on some)
+        k2 = 'auto' if it % 7 == 5 else kind
+        for j, (name, op) in enumerate((('forms', lambda: _input_forms(ctx, spec, build(spec, k2), rng, k2)),
+                                        ('inplace', lambda: _inplace_sequence(ctx, spec, rng, k2)),
+                                        ('aliasing', lambda: _arg_aliasing(ctx, spec, rng, k2)),
+                                        ('argforms', lambda: _arg_forms(ctx, spec, rng, k2)),
+                                        ('scale', lambda: _scale_sweep(ctx, spec, rng, k2)))):
+            if (it + j) % 3 == 0 or broken:
+                _guarded(ctx, name, k2, spec, op)
     _search_refusals(ctx, rng, ctx.n(81, 324) * mult)
     t1 = time.time()
     nsw = ctx.n(21, 140) * mult
@@ -1857,6 +2509,17 @@ def replay(ctx, payload):
         _clauses(ctx, r['spec'], s, rng, kind)
         for _ in range(4):
             _covariance(ctx, r['spec'], rng, kind)
+        print('replay', op, kind, 'violations now:', len(ctx.violations))
+    elif op in ('forms', 'inplace', 'aliasing', 'argforms', 'scale') and 'spec' in r:
+        kind = r.get('solver', 'stroh')
+        spec = r['spec']
+        for i in range(12):
+            rr = random.Random(i)
+            if op == 'forms':
+                _guarded(ctx, op, kind, spec, lambda: _input_forms(ctx, spec, build(spec, kind), rr, kind))
+            else:
+                fn = {'inplace': _inplace_sequence, 'aliasing': _arg_aliasing, 'argforms': _arg_forms, 'scale': _scale_sweep}[op]
+                _guarded(ctx, op, kind, spec, lambda: fn(ctx, spec, rr, kind))
         print('replay', op, kind, 'violations now:', len(ctx.violations))
     elif op == 'dispatch' and 'sweep' in r:
         _dispatch_sweep(ctx, r['sweep'], rng)
